@@ -79,4 +79,141 @@ theorem unpack_decimal128_eq_model (buf : Bytes) :
     · simp [hs, decView, unpackLoop, Gen.DECIMAL128_BIAS]
   all_goals rfl
 
+/-! ### `_pack_decimal128` from the decimal triple on -/
+
+/-- `buf[i] |= x` as the source performs it (read the byte, `|`, store) is the model's `orByte`. -/
+theorem or_assign (buf : Bytes) (i x : Nat) (ii : Int) (hi : ii = (i : Int)) :
+    (do let t ← PyT.byteAt buf ii; PyT.setByte buf ii (PyT.bitOr t (x : Int))) = orByte buf i x := by
+  subst hi
+  unfold orByte
+  by_cases h : i < buf.length
+  · have hg : buf[i]? = some buf[i] := List.getElem?_eq_getElem h
+    rw [byteAt_nat buf i i rfl h, hg]
+    simp only [bind, Except.bind, bitOr_nat, PyT.setByte]
+    have h1 : ¬ ((i : Int) < 0) := by omega
+    have h2 : ¬ (False ∨ (i : Int) ≥ (buf.length : Int)) := by
+      intro hh; rcases hh with hh | hh
+      · exact hh
+      · omega
+    simp only [h1, if_false, h2, Int.toNat_natCast]
+    by_cases hv : (buf[i].toNat ||| x) > 255
+    · have : (((buf[i].toNat ||| x : Nat) : Int) < 0 ∨ ((buf[i].toNat ||| x : Nat) : Int) > 255) := Or.inr (by omega)
+      simp only [this, if_true, hv]
+    · have : ¬ (((buf[i].toNat ||| x : Nat) : Int) < 0 ∨ ((buf[i].toNat ||| x : Nat) : Int) > 255) := by omega
+      simp only [this, if_false, hv]
+  · have hg : buf[i]? = none := List.getElem?_eq_none (by omega)
+    rw [hg]
+    have hb : PyT.byteAt buf (i : Int) = .error .IndexError := by
+      unfold PyT.byteAt pyIndex
+      have h1 : ¬ ((i : Int) < 0) := by omega
+      simp only [h1, if_false]
+      have h2 : (False ∨ (i : Int) ≥ (buf.length : Int)) := Or.inr (by omega)
+      simp only [h2, if_true, Except.map]
+    rw [hb]; rfl
+
+theorem pack_loop (fuel : Nat) : ∀ (buf : Bytes) (i m : Nat),
+    (pack_decimal128.loop1 fuel buf (i : Int) (m : Int)).map (fun r => r.1) = packLoop fuel buf i m := by
+  induction fuel with
+  | zero => intro buf i m; rfl
+  | succ fuel ih =>
+    intro buf i m
+    unfold pack_decimal128.loop1 packLoop
+    by_cases hm : m ≥ 1
+    · have hm' : (m : Int) ≥ 1 := by omega
+      simp only [hm, hm', decide_true, if_true]
+      have hor := or_assign buf i (m &&& 0xFF) (i : Int) rfl
+      simp only [bind, Except.bind] at hor ⊢
+      rw [bitAnd_nat m 255 255 rfl]
+      cases hb : PyT.byteAt buf (i : Int) with
+      | error e => rw [hb] at hor; simp only [] at hor ⊢; rw [← hor]; rfl
+      | ok t =>
+        rw [hb] at hor
+        simp only [] at hor ⊢
+        rw [hor]
+        cases orByte buf i (m &&& 0xFF) with
+        | error e => rfl
+        | ok buf' =>
+          simp only [shr_nat m 8 8 rfl]
+          have e1 : (i : Int) + 1 = ((i + 1 : Nat) : Int) := by omega
+          rw [e1]
+          exact ih buf' (i + 1) (m >>> 8)
+    · have hm' : ¬ (m : Int) ≥ 1 := by omega
+      simp only [hm, hm', decide_false, Bool.false_eq_true, if_false]
+      rfl
+
+theorem bitOr_zero_left (a : Int) : PyT.bitOr 0 a = a := by
+  cases a with
+  | ofNat n => show ((0 ||| n : Nat) : Int) = (n : Int); rw [Nat.zero_or]
+  | negSucc n => show Int.negSucc (n - (n &&& 0)) = Int.negSucc n; rw [Nat.and_zero]; rfl
+
+theorem ok_bind {α β} (a : α) (f : α → PyM β) : ((Except.ok a : PyM α) >>= f) = f a := rfl
+theorem error_bind {α β} (e : PyExc) (f : α → PyM β) : ((Except.error e : PyM α) >>= f) = Except.error e := rfl
+
+/-- `or_assign` in front of any continuation -/
+theorem or_assign_k {β} (buf : Bytes) (i x : Nat) (ii xi : Int) (hi : ii = (i : Int)) (hx : xi = (x : Int))
+    (k : Bytes → PyM β) :
+    (PyT.byteAt buf ii >>= fun t => PyT.setByte buf ii (PyT.bitOr t xi) >>= k) = (orByte buf i x >>= k) := by
+  subst hx
+  rw [← or_assign buf i x ii hi]
+  cases PyT.byteAt buf ii with
+  | error e => rfl
+  | ok t => rfl
+
+/-- `_pack_decimal128` after `as_tuple()`, for every sign flag, coefficient and exponent (also those outside the format:
+    the same ValueError / IndexError). -/
+theorem pack_decimal128_eq_model (sign : Bool) (coeff : Nat) (exp : Int) :
+    pack_decimal128 (if sign then 1 else 0) (coeff : Int) exp = pack { sign := sign, coeff := coeff, exp := exp } := by
+  unfold pack_decimal128 pack
+  have hB : (Gen.DECIMAL128_BIAS : Int) = 6176 := rfl
+  rw [hB]
+  generalize exp + 6176 = E
+  have hshr : PyT.shr E 7 = .ok (E >>> 7) := by
+    simp only [PyT.shr, show ¬ ((7 : Int) < 0) by decide, if_false]; rfl
+  have hz : PyT.bytearrayZeros 16 = .ok (List.replicate 16 (0 : UInt8)) := rfl
+  have hb15 : PyT.byteAt (List.replicate 16 (0 : UInt8)) 15 = .ok 0 := by decide
+  simp only [hz, ok_bind, hb15, hshr, bitOr_zero_left]
+  by_cases hhi : E >>> 7 < 0 ∨ E >>> 7 > 255
+  · have hs : PyT.setByte (List.replicate 16 (0 : UInt8)) 15 (E >>> 7) = .error .ValueError := by
+      simp [PyT.setByte, hhi]
+    simp only [hhi, if_true, hs, error_bind]
+    rfl
+  · simp only [hhi, if_false]
+    have hE0 : 0 ≤ E := by
+      have : ¬ (E >>> 7 < 0) := fun h => hhi (Or.inl h)
+      rw [Int.shiftRight_eq_div_pow] at this
+      omega
+    obtain ⟨e, rfl⟩ := Int.eq_ofNat_of_zero_le hE0
+    have hh : ((e : Int) >>> 7) = ((e >>> 7 : Nat) : Int) := rfl
+    have hs : PyT.setByte (List.replicate 16 (0 : UInt8)) 15 ((e >>> 7 : Nat) : Int)
+        = orByte (List.replicate 16 (0 : UInt8)) 15 (e >>> 7) := by
+      have := or_assign (List.replicate 16 (0 : UInt8)) 15 (e >>> 7) 15 rfl
+      rw [hb15] at this
+      simpa only [ok_bind, bitOr_zero_left] using this
+    rw [hh, hs]
+    simp only [Int.toNat_natCast, pure_bind]
+    cases orByte (List.replicate 16 (0 : UInt8)) 15 (e >>> 7) with
+    | error err => rfl
+    | ok b1 =>
+      simp only [ok_bind, bitAnd_nat e 127 127 rfl, shl_nat (e &&& 127) 1 1 rfl]
+      rw [or_assign_k b1 14 ((e &&& 127) <<< 1) 14 _ rfl rfl]
+      cases orByte b1 14 ((e &&& 127) <<< 1) with
+      | error err => rfl
+      | ok b2 =>
+        simp only [ok_bind]
+        have hl := pack_loop (coeff + 1) b2 0 coeff
+        have e0 : ((0 : Nat) : Int) = 0 := rfl
+        rw [e0] at hl
+        rw [← hl]
+        cases pack_decimal128.loop1 (coeff + 1) b2 0 (coeff : Int) with
+        | error err => rfl
+        | ok r =>
+          simp only [Except.map, ok_bind]
+          cases sign with
+          | false => rfl
+          | true =>
+            have : (decide ((1 : Int) ≠ 0)) = true := by decide
+            simp only [if_true, this]
+            have := or_assign_k r.1 15 128 15 128 rfl rfl (fun b => (pure b : PyM Bytes))
+            simpa using this
+
 end NumbersModel.Translated
